@@ -22,7 +22,7 @@ MaxViol == 200
 Cap(v) == IF Len(v) > MaxViol THEN SubSeq(v, 1, MaxViol) ELSE v
 
 \* registers: 1 = violations so far, 2 = next event index, 3 = free-form statistics
-Publish(v, l) == TLCSet(1, v) /\ TLCSet(2, l)
+PubResult(v, l) == TLCSet(1, v) /\ TLCSet(2, l)
 
 WriteResult ==
   JsonSerialize(IOEnv.RESULT, [consumed |-> TLCGet(2) - 1, events |-> NEv, viol |-> TLCGet(1)])
